@@ -120,6 +120,17 @@ uint8_t get_reg(struct instr *instrc, struct operand *m, int r) {
     }
     if (m->reg == NO_BASE)
       instrc->mod_disp = 0;
+    else {
+      // the index became the base: it needs what encode_mem does for a base
+      unsigned int reg_opd = m->reg & MODE_MASK;
+      if ((m->reg & VALUE_MASK) == spl && m->index == reg_none)
+        instrc->is_sib_const = true;
+      if (reg_opd > ext16 && reg_opd < mmx64 && !instrc->mem_offset &&
+          (m->reg & VALUE_MASK) == bpl) {
+        instrc->mod_disp = MOD8;
+        instrc->zero_byte = true;
+      }
+    }
   }
   // check for index register
   if (m->index == reg_none) {
